@@ -506,20 +506,26 @@ class Executor:
             out[a.kwarg.arg] = VDict(kw)
         elif kw:
             raise PyRaise('TypeError', 'unexpected keyword argument(s) %s for %s' % (sorted(kw), getattr(fnode, 'name', 'lambda')))
-        # defaults
+        # defaults.  Python evaluates them once, when the `def` is executed: for a module-level function that is import time, so a module global
+        # a contract overrides (a run-time switch such as Integration.use_delj_trick) is seen with its *import-time* value, not the overridden one
         defaults = a.defaults
         off = len(names) - len(defaults)
-        for i, n in enumerate(names):
-            if n not in out:
-                if i >= off:
-                    out[n] = evaluated[0][i - off] if evaluated is not None else self.eval(defaults[i - off], env_for_defaults, mod)
-                else:
-                    raise PyRaise('TypeError', 'missing argument %s for %s' % (n, getattr(fnode, 'name', 'lambda')))
-        for j, (x, d) in enumerate(zip(a.kwonlyargs, a.kw_defaults)):
-            if x.arg not in out:
-                if d is None:
-                    raise PyRaise('TypeError', 'missing kw-only argument %s' % x.arg)
-                out[x.arg] = evaluated[1][j] if evaluated is not None else self.eval(d, env_for_defaults, mod)
+        prev = getattr(self, '_import_time_globals', False)
+        self._import_time_globals = evaluated is None
+        try:
+            for i, n in enumerate(names):
+                if n not in out:
+                    if i >= off:
+                        out[n] = evaluated[0][i - off] if evaluated is not None else self.eval(defaults[i - off], env_for_defaults, mod)
+                    else:
+                        raise PyRaise('TypeError', 'missing argument %s for %s' % (n, getattr(fnode, 'name', 'lambda')))
+            for j, (x, d) in enumerate(zip(a.kwonlyargs, a.kw_defaults)):
+                if x.arg not in out:
+                    if d is None:
+                        raise PyRaise('TypeError', 'missing kw-only argument %s' % x.arg)
+                    out[x.arg] = evaluated[1][j] if evaluated is not None else self.eval(d, env_for_defaults, mod)
+        finally:
+            self._import_time_globals = prev
         return out
 
     def apply(self, fnode, closure_env, mod, args, kwargs, name, defaults=None):
@@ -1918,7 +1924,7 @@ class Executor:
 
     def module_global(self, mi, name, node=None):
         key = (mi.name, name)
-        if key in self.module_overrides:
+        if key in self.module_overrides and not getattr(self, '_import_time_globals', False):
             return self.module_overrides[key]
         if name in mi.funcs:
             return FuncRef(mi, mi.funcs[name], name)
